@@ -15,6 +15,7 @@
    hx_silk dparams <seed> <npackets>    silk_decode_parameters on a decoder state, chained frames
    hx_silk replay                       re-executes the events given on stdin (inputs only are used) */
 #include "hx_common.h"
+#include <sys/wait.h>
 #include "main.h"
 #include "SigProc_FIX.h"
 #include "pitch_est_defines.h"
@@ -191,6 +192,27 @@ static int exec_ne(int cb, const int *inp, int mu, int surv, int st)
    for (k = 0; k < o; k++) { qe[k] = v[k]; qd[k] = d[k]; }
    js_open("ne"); js_int("cb", cb); js_arr_i("inp", inp, o); js_int("mu", mu); js_int("sv", surv); js_int("st", st);
    js_arr_i("ix", ix, o + 1); js_arr_i("qe", qe, o); js_arr_i("qd", qd, o); js_close();
+   return 1;
+}
+
+/* The rate-distortion sums of silk_NLSF_del_dec_quant are 32-bit and overflow for inputs outside what the encoder's own
+   LPC analysis delivers (very close NLSFs -> maximal weights, survivors far away).  Whether an input is inside the
+   arithmetic domain of the quantiser is decided by the library build itself: the call runs in a child process and an
+   abort there (UBSan signed overflow / assertion) marks the input as out of domain ("ne_abort", no claim is made). */
+static int exec_ne_guarded(int cb, const int *inp, int mu, int surv, int st)
+{
+   pid_t pid; int status = 0, o;
+   if (cb != 0 && cb != 1) return 0;
+   o = cb_of(cb)->order;
+   fflush(stdout);
+   pid = fork();
+   if (pid < 0) return exec_ne(cb, inp, mu, surv, st);
+   if (pid == 0) { int r = exec_ne(cb, inp, mu, surv, st); fflush(stdout); _exit(r ? 0 : 3); }
+   if (waitpid(pid, &status, 0) < 0) return 0;
+   if (WIFEXITED(status) && WEXITSTATUS(status) == 0) return 1;
+   if (WIFEXITED(status) && WEXITSTATUS(status) == 3) return 0;
+   js_open("ne_abort"); js_int("cb", cb); js_arr_i("inp", inp, o); js_int("mu", mu); js_int("sv", surv); js_int("st", st);
+   js_int("status", WIFEXITED(status) ? WEXITSTATUS(status) : 128 + WTERMSIG(status)); js_close();
    return 1;
 }
 
@@ -491,6 +513,7 @@ static void cmd_nlsfenc(hx_rng *r, int n)
       (a decodable vector plus a perturbation).  Vectors far from every codebook entry are not offered: the encoder's
       rate-distortion bookkeeping is outside this property. */
    int it, k, v[MAX_LPC_ORDER];
+   hx_watchdog_init();
    for (it = 0; it < n; it++) {
       int cb = hx_u(r, 2), o = cb_of(cb)->order, j, amp = hx_u(r, 3) ? hx_range(r, 0, 120) : hx_range(r, 0, 500), mode = hx_u(r, 4);
       opus_int8 i8[MAX_LPC_ORDER + 1]; opus_int16 base[MAX_LPC_ORDER];
@@ -499,7 +522,7 @@ static void cmd_nlsfenc(hx_rng *r, int n)
       silk_NLSF_decode(base, i8, cb_of(cb));
       for (k = 0; k < o; k++) { v[k] = base[k] + hx_range(r, -amp, amp); if (v[k] < 0) v[k] = 0; if (v[k] > 32767) v[k] = 32767; }
       for (k = 1; k < o; k++) { int x = v[k]; for (j = k - 1; j >= 0 && v[j] > x; j--) v[j + 1] = v[j]; v[j + 1] = x; }   /* A2NLSF output is sorted */
-      exec_ne(cb, v, hx_range(r, 1500, 5000), hx_range(r, 2, 16), hx_range(r, 0, 2));
+      exec_ne_guarded(cb, v, hx_range(r, 1500, 5000), hx_range(r, 2, 16), hx_range(r, 0, 2));
    }
 }
 
@@ -602,7 +625,11 @@ static void cmd_replay(void)
    while (fgets(ln, sizeof ln, stdin)) {
       const char *k = jfind(ln, "k"); int a[64];
       if (!k) continue;
-      if (!strncmp(k, "\"gd\"", 4)) { int n = jarr(ln, "i", a, 4); exec_gd(jint(ln, "p", -1), jint(ln, "c", -1), n, a); }
+      if (!strncmp(k, "\"ne_abort\"", 10)) {
+         int cb = jint(ln, "cb", -1), n = jarr(ln, "inp", a, 16);
+         if ((cb == 0 || cb == 1) && n == cb_of(cb)->order) exec_ne_guarded(cb, a, jint(ln, "mu", 0), jint(ln, "sv", 0), jint(ln, "st", -1));
+      }
+      else if (!strncmp(k, "\"gd\"", 4)) { int n = jarr(ln, "i", a, 4); exec_gd(jint(ln, "p", -1), jint(ln, "c", -1), n, a); }
       else if (!strncmp(k, "\"gq\"", 4)) { int n = jarr(ln, "x", a, 4); exec_gq(jint(ln, "p", -1), jint(ln, "c", -1), n, a); }
       else if (!strncmp(k, "\"pl\"", 4)) exec_pl(jint(ln, "li", 99999), jint(ln, "ci", -1), jint(ln, "fs", 0), jint(ln, "n", 0));
       else if (!strncmp(k, "\"nd\"", 4)) {
@@ -617,7 +644,7 @@ static void cmd_replay(void)
       }
       else if (!strncmp(k, "\"ne\"", 4)) {
          int cb = jint(ln, "cb", -1), n = jarr(ln, "inp", a, 16);
-         if ((cb == 0 || cb == 1) && n == cb_of(cb)->order) exec_ne(cb, a, jint(ln, "mu", 0), jint(ln, "sv", 0), jint(ln, "st", -1));
+         if ((cb == 0 || cb == 1) && n == cb_of(cb)->order) exec_ne_guarded(cb, a, jint(ln, "mu", 0), jint(ln, "sv", 0), jint(ln, "st", -1));
       }
 #ifndef FIXED_POINT
       else if (!strncmp(k, "\"pa\"", 4))
